@@ -99,7 +99,11 @@ def lam_check(case):
     f, kap, A = forcing_field(spec)
     sig = sigma_of(spec, kap)
     n = case["n"]
-    while n > 1 and sig.real * n * dt > 5.0:
+    # the laminar flow is a solution, but rounding noise in every other mode grows like exp(max Re(lambda) t):
+    # keep max_k Re(lambda_k) * n * dt <= 5 as well
+    kap_all = 2 * math.pi / L * orc.rfft_wavenumbers(D, N)
+    gmax = max(float(np.max(model.symbol(spec, kap_all).real)), sig.real)
+    while n > 1 and gmax * n * dt > 5.0:
         n -= 1
     if sig.real * n * dt > 5.0:
         spec = dict(spec, dt=5.0 / sig.real)
